@@ -446,3 +446,86 @@ class MappingTpcAbort(Spec):
 
 
 SPECS.append(MappingTpcAbort)
+
+
+from .demostorage import NewTid  # noqa: E402  (assumed contract of ZODB.utils.newTid, A-TIMESTAMP)
+
+
+class MappingTpcBegin(Spec):
+    """MappingStorage.tpc_begin (C04 / C05): a duplicate call for the transaction in progress is refused without any
+    effect; otherwise the commit lock is taken (never while the storage lock is held: no lock-order inversion with
+    a finishing thread), the transaction recorded, staging emptied, and - no tid given - a tid chosen that is LATER
+    than every committed transaction's, whatever the clock says; LOCKINV (commit lock held <=> transaction recorded)."""
+    func = MS + '.tpc_begin'
+    props = ('C04', 'C05')
+    assumptions = tuple(ASSUMPTIONS) + NewTid.assumptions
+    cases = ('fresh', 'duplicate', 'explicit-tid')
+
+    def setup(self, c, case=None):
+        n = fresh_name('txns')
+        tree = c.new_obj('tidtree', None, {'dom': z3.Array('dom_' + n, I, B), 'val': z3.Array('val_' + n, I, I)},
+                         {'name': '_transactions'})
+        c.roles.array(c.obj(tree).f['dom'], 'tid')
+        lock = prims.new_lock(c, 'MappingStorage._lock', reentrant=True, held=0)
+        dup = case == 'duplicate'
+        clock = prims.new_lock(c, 'MappingStorage._commit_lock', reentrant=False, held=1 if dup else 0)
+        txn = c.fresh_opaque('transaction')
+        me = inst(c, MS, _transactions=tree, _lock=lock, _commit_lock=clock, _opened=VBool(True),
+                  _transaction=txn if dup else NONE)
+        c.ghost['tb'] = {'tree': tree, 'lock': lock, 'clock': clock, 'me': me}
+        E = {'self': me, 'transaction': txn}
+        if case == 'explicit-tid':
+            E['tid'] = c.fresh_bytes(8, 'given_tid')
+        else:
+            E['tid'] = NONE
+        return E
+
+    def hooks(self, c):
+        def acquired(cc, ref, node):
+            g = cc.ghost['tb']
+            if ref.id == g['clock'].id:
+                cc.oblige('commit-lock-never-awaited-while-holding-the-storage-lock',
+                          cc.obj(g['lock']).f['held'] == 0, node, assume_after=False)
+        return {'acquired': acquired}
+
+    def modifies(self, c, E):
+        g = c.ghost['tb']
+        if isinstance(c.obj(g['me']).f['_transaction'], VOpaque):
+            return set()
+        return {(g['me'].id, '_transaction'), (g['me'].id, '_tdata'), (g['me'].id, '_tid'), (g['clock'].id, 'held')}
+
+    def outcomes(self, c, E):
+        g = c.ghost['tb']
+        dom = c.obj(g['tree']).f['dom']
+        has = lambda t: z3.And(z3.Select(dom, t), t >= 0, t < 2 ** 64)
+        dup = isinstance(c.obj(g['me']).f['_transaction'], VOpaque)
+
+        def begun(cc, E, r):
+            S = cc.obj(g['me']).f
+            tid = S.get('_tid')
+            out = [('LOCKINV.commit-lock-held', cc.obj(g['clock']).f['held'] == 1),
+                   ('LOCKINV.transaction-recorded', S['_transaction'] is E['transaction']),
+                   ('storage-lock-released', cc.obj(g['lock']).f['held'] == 0),
+                   ('tid-set', isinstance(tid, VBytes) and tid.conc_len() == 8)]
+            td = S.get('_tdata')
+            out.append(('staging-emptied', isinstance(td, VRef) and cc.obj(td).kind == 'pydict' and
+                        not cc.obj(td).meta['pairs']))
+            if isinstance(tid, VBytes) and tid.conc_len() == 8:
+                if isinstance(E['tid'], VNone):
+                    t = bytes_num(cc, tid)
+                    out.append(('tid-later-than-every-committed-transaction',
+                                All(['tid'], lambda q: z3.Implies(has(q), q < t))))
+                else:
+                    out.append(('given-tid-used', bytes_num(cc, tid) == bytes_num(cc, E['tid'])))
+            return out
+
+        def refused(cc, E, x):
+            return [('commit-lock-untouched', cc.obj(g['clock']).f['held'] == 1),
+                    ('storage-lock-released', cc.obj(g['lock']).f['held'] == 0)]
+        if dup:
+            return [Outcome('duplicate', 'raise', 'ZODB.POSException:StorageTransactionError', post=refused)]
+        return [Outcome('begun', result=lambda cc, E: NONE, post=begun)]
+
+
+SPECS += [NewTid, MappingTpcBegin]
+INLINE.append('ZODB.utils:check_precondition')
